@@ -830,6 +830,9 @@ class Container:
             volume_to_add = amount_to_add = 0.  # (0 L of a solid without volume is 0 x inf otherwise)
         if abs(amount_to_add) == float('inf') or abs(volume_to_add) == float('inf'):
             raise ValueError("Quantity must be finite.")
+        if source.is_enzyme() and Unit.parse_quantity(quantity)[1] == 'mol' and Unit.parse_quantity(quantity)[0] != 0:
+            # (an enzyme has no molar mass: any number of moles of it would be stored as nothing)
+            raise ValueError("An enzyme cannot be measured in moles.")
         # negative is what would be stored as a negative amount (the storage units decide, not litres or grams)
         if (Unit.parse_quantity(quantity)[0] < 0 and
                 (round(amount_to_add, config.internal_precision) < 0 or
